@@ -317,7 +317,11 @@ class G:
                 "(r.p not in ['/etc/passwd'])",
                 "(r.p == '/tmp/x')",
                 "(r.u in ['https://foo.bar/x', 'a'])",
-                "(r.s in ['a', 'hello'] == True)" if False else "(r.sl in [['a'], []])",
+                "(r.sl in [['a'], []])",
+                # attribute access on field values
+                "(r.u.scheme == 'http')", "(r.u.hostname in ['example.com', 'foo.bar'])", "(r.u.filename == 'b.txt')",
+                "(r.u.scheme != r.s)", "(r.p.name == 'x')", "(r.p.parent == '/tmp')", "(r.p.suffix == '')",
+                "(r.ip.val.version == 4)", "(r.u.netloc == lower(r.u.netloc))",
             ])
         if k == "and":
             self.use("boolop:and")
